@@ -1242,11 +1242,11 @@ func ValueTupleExpr(query *Query, current Map, expr *sqlparser.ValTuple, opts ..
 		if err != nil {
 			return nil, err
 		}
-		if colName, ok := value.(ColumnName); ok {
-			value, err = ExecReader(current, string(colName))
-			if err != nil {
-				return nil, err
-			}
+		// an element is resolved like any other expression: a column reference to its value, a computed
+		// number or a literal out of its wrapper
+		value, err = ValueOf(query, current, value)
+		if err != nil {
+			return nil, err
 		}
 		slice = append(slice, value)
 	}
